@@ -3,9 +3,14 @@
 package verifrt
 
 import (
+	"context"
 	"errors"
 	"io"
 	"net/http"
+	"net/url"
+
+	"golang.org/x/mod/sumdb/note"
+	"golang.org/x/time/rate"
 )
 
 var errTransport = errors.New("model: transport error")
@@ -34,3 +39,210 @@ func ClientGet(c *http.Client, url string) (*http.Response, error) {
 
 //wsym:replace io.LimitReader
 func LimitReader(r io.Reader, n int64) io.Reader { return r }
+
+// ---------- URLs ----------
+
+var urlRaw = map[*url.URL]string{}
+
+//wsym:replace net/url.Parse
+func URLParse(raw string) (*url.URL, error) {
+	if Bool("url.parse.fails") {
+		Log(Ev{K: "urlfail"})
+		return nil, errTransport
+	}
+	u := &url.URL{}
+	urlRaw[u] = raw
+	return u, nil
+}
+
+// URLOf builds a *url.URL that stands for the given text.
+func URLOf(raw string) *url.URL {
+	u := &url.URL{}
+	urlRaw[u] = raw
+	return u
+}
+
+//wsym:replace (*net/url.URL).String
+func URLString(u *url.URL) string { return urlRaw[u] }
+
+// Resolution of a relative reference against a base is the (uninterpreted) function urlJoin.
+//
+//wsym:replace (*net/url.URL).Parse
+func URLRelParse(u *url.URL, ref string) (*url.URL, error) {
+	if Bool("url.parse.fails") {
+		Log(Ev{K: "urlfail"})
+		return nil, errTransport
+	}
+	return URLOf(UFStr("urlJoin", urlRaw[u], ref)), nil
+}
+
+//wsym:replace net/url.PathEscape
+func PathEscape(s string) string { return UFStr("pathEscape", s) }
+
+// ---------- requests, responses ----------
+
+type reqInfo struct {
+	url  string
+	body []byte
+}
+
+var reqs = map[*http.Request]*reqInfo{}
+
+//wsym:replace net/http.NewRequest
+func NewRequest(method, u string, body io.Reader) (*http.Request, error) {
+	if Bool("newrequest.fails") {
+		Log(Ev{K: "urlfail"})
+		return nil, errTransport
+	}
+	r := &http.Request{Method: method}
+	ri := &reqInfo{url: u}
+	if body != nil {
+		ri.body = ReaderBytes(body)
+	}
+	reqs[r] = ri
+	return r, nil
+}
+
+//wsym:replace (*net/http.Request).WithContext
+func RequestWithContext(r *http.Request, ctx context.Context) *http.Request { return r }
+
+//wsym:replace (*net/http.Request).Context
+func RequestContext(r *http.Request) context.Context { return &Ctx{} }
+
+// ClientDo records the request; the answer is arbitrary: a transport error, or any status and
+// body, possibly after a redirect that changed the method.
+//
+//wsym:replace (*net/http.Client).Do
+func ClientDo(c *http.Client, r *http.Request) (*http.Response, error) {
+	ri := reqs[r]
+	if ri == nil {
+		Unsupported("Client.Do on a request that was not built by http.NewRequest")
+	}
+	Log(Ev{K: "http.Do", B: [][]byte{[]byte(r.Method), []byte(ri.url), ri.body}})
+	if Bool("http.fails") {
+		Log(Ev{K: "http.resp", U: []uint64{0, 0}, B: [][]byte{nil}})
+		return nil, errTransport
+	}
+	final := &http.Request{Method: r.Method, URL: URLOf(ri.url)}
+	if Bool("http.redirected") {
+		final = &http.Request{Method: Str("http.finalMethod"), URL: URLOf(Str("http.finalURL"))}
+	}
+	status := U64("http.status")
+	Assume(status >= 100 && status < 600)
+	Log(Ev{K: "http.resp", U: []uint64{1, status}, B: [][]byte{[]byte(final.Method)}})
+	return &http.Response{StatusCode: int(status), Status: Str("http.statusText"), Body: &StrReader{S: Str("http.respBody")}, Request: final}, nil
+}
+
+// ---------- server side ----------
+
+// RecWriter is a recording http.ResponseWriter.
+type RecWriter struct {
+	H            http.Header
+	Status       int
+	WroteHeaders int
+	Body         []byte
+	Writes       int
+}
+
+func (w *RecWriter) Header() http.Header {
+	if w.H == nil {
+		w.H = http.Header{}
+	}
+	return w.H
+}
+
+func (w *RecWriter) WriteHeader(code int) {
+	w.WroteHeaders++
+	if w.Status == 0 {
+		w.Status = code
+	}
+}
+
+func (w *RecWriter) Write(b []byte) (int, error) {
+	if w.Status == 0 {
+		w.Status = 200
+	}
+	if w.Writes > 0 {
+		Unsupported("more than one Write to a response")
+	}
+	w.Writes++
+	w.Body = b
+	return len(b), nil
+}
+
+//wsym:replace (net/http.Header).Set
+func HeaderSet(h http.Header, k, v string) { h[k] = []string{v} }
+
+//wsym:replace (net/http.Header).Add
+func HeaderAdd(h http.Header, k, v string) { h[k] = append(h[k], v) }
+
+//wsym:replace (net/http.Header).Get
+func HeaderGet(h http.Header, k string) string {
+	if v := h[k]; len(v) > 0 {
+		return v[0]
+	}
+	return ""
+}
+
+//wsym:replace net/http.Error
+func HTTPError(w http.ResponseWriter, msg string, code int) {
+	w.Header().Set("Content-Type", "text/plain; charset=utf-8")
+	w.WriteHeader(code)
+	w.Write([]byte(msg))
+}
+
+var reqVars = map[*http.Request]map[string]string{}
+
+// SetVars attaches route variables to a request (what gorilla/mux would have extracted).
+func SetVars(r *http.Request, v map[string]string) { reqVars[r] = v }
+
+//wsym:replace github.com/gorilla/mux.Vars
+func MuxVars(r *http.Request) map[string]string { return reqVars[r] }
+
+//wsym:replace encoding/json.Marshal
+func JSONMarshal(v any) ([]byte, error) {
+	switch x := v.(type) {
+	case []string:
+		args := []any{}
+		for _, s := range x {
+			args = append(args, []byte(s))
+		}
+		return JSONList(args...), nil
+	}
+	Unsupported("json.Marshal of an unsupported type")
+	return nil, nil
+}
+
+// JSONList is the (injective) JSON encoding of a list of strings.
+func JSONList(elems ...any) []byte {
+	if !AlgebraDomain() {
+		return UFBytes("jsonList", elems...)
+	}
+	return Ctor("json", elems...)
+}
+
+// ---------- misc contracts ----------
+
+//wsym:replace github.com/transparency-dev/formats/log.ID
+func LogID(origin string) string { return UFStr("logID", origin) }
+
+//wsym:replace (*golang.org/x/time/rate.Limiter).Allow
+func LimiterAllow(l *rate.Limiter) bool {
+	ok := Bool("limiter.allow")
+	Log(Ev{K: "limiter.allow", U: []uint64{IteU64(ok, 1, 0)}})
+	return ok
+}
+
+//wsym:replace golang.org/x/time/rate.NewLimiter
+func NewLimiter(r rate.Limit, b int) *rate.Limiter { return &rate.Limiter{} }
+
+// NewVerifier is the contract of formats/note.NewVerifier: a verifier whose identity (key id)
+// and name are functions of the key text; malformed key text is refused.
+//
+//wsym:replace github.com/transparency-dev/formats/note.NewVerifier
+func NewVerifierFromKey(key string) (note.Verifier, error) {
+	if !UFBool("keyTextOK", key) {
+		return nil, errOpen
+	}
+	return &Verifier{K: UFU64("keyOfText", key), N: UFStr("nameOfText", key)}, nil
+}
